@@ -9,6 +9,7 @@ package main
 //               to a length bound over the alphabet {x,y,z}, and in generation mode.
 
 import (
+	"context"
 	"errors"
 	"fmt"
 	"math/rand"
@@ -953,13 +954,30 @@ func c17Lists(n int) [][]engine.Term {
 
 const c17Cap = 24
 
-func c17Solve(vm *engine.VM, goal, template engine.Term) string {
+// c17Budget: a translation that loops (a mutant, a defect) must show up as a TIMEOUT line, not
+// stall the whole run: the first query of a case that exceeds the (generous, wall-clock) limit
+// ends the case.  Every legitimate query of this stream takes micro- to milliseconds.
+type c17Budget struct {
+	blown bool
+}
+
+const c17QueryLimit = 5 * time.Second
+
+func c17Solve(vm *engine.VM, goal, template engine.Term, bud *c17Budget) string {
+	if bud.blown {
+		return ""
+	}
+	limit := c17QueryLimit
 	var rows []string
-	_, err := solve(vm, goal, c17Cap, 5*time.Second, func(env *engine.Env) bool {
+	_, err := solve(vm, goal, c17Cap, limit, func(env *engine.Env) bool {
 		rows = append(rows, wire(template, env, newVarNamer()))
 		return true
 	})
 	if err != nil {
+		if errors.Is(err, context.DeadlineExceeded) {
+			bud.blown = true
+			return strings.Join(append(rows, "TIMEOUT"), " | ")
+		}
 		return strings.Join(append(rows, errWire(err)), " | ")
 	}
 	return strings.Join(rows, " | ")
@@ -1012,26 +1030,27 @@ func runC17Lang(payload string) string {
 
 	var vars []engine.Term
 	c17Vars(start, map[engine.Variable]bool{}, &vars)
+	bud := &c17Budget{}
 	var res []string
 	accepted, withRem := 0, 0
 	for k, l := range c17Lists(maxLen) {
 		lt := engine.List(l...)
 		rem := engine.NewVariable()
-		if out := c17Solve(&i.VM, compound("phrase", start, lt, rem), compound("t", append(append([]engine.Term{}, vars...), rem)...)); out != "" {
+		if out := c17Solve(&i.VM, compound("phrase", start, lt, rem), compound("t", append(append([]engine.Term{}, vars...), rem)...), bud); out != "" {
 			res = append(res, fmt.Sprintf("m%d %s", k, out))
 			withRem++
 		}
-		if out := c17Solve(&i.VM, compound("phrase", start, lt), compound("t", append([]engine.Term{atom("-")}, vars...)...)); out != "" {
+		if out := c17Solve(&i.VM, compound("phrase", start, lt), compound("t", append([]engine.Term{atom("-")}, vars...)...), bud); out != "" {
 			res = append(res, fmt.Sprintf("r%d %s", k, out))
 			accepted++
 		}
 	}
 	if flags["gen"] == "1" {
 		l, rem := engine.NewVariable(), engine.NewVariable()
-		if out := c17Solve(&i.VM, compound("phrase", start, l), compound("t", append(append([]engine.Term{}, vars...), l)...)); out != "" {
+		if out := c17Solve(&i.VM, compound("phrase", start, l), compound("t", append(append([]engine.Term{}, vars...), l)...), bud); out != "" {
 			res = append(res, "g "+out)
 		}
-		if out := c17Solve(&i.VM, compound("phrase", start, l, rem), compound("t", append(append([]engine.Term{}, vars...), l, rem)...)); out != "" {
+		if out := c17Solve(&i.VM, compound("phrase", start, l, rem), compound("t", append(append([]engine.Term{}, vars...), l, rem)...), bud); out != "" {
 			res = append(res, "h "+out)
 		}
 	}
